@@ -71,10 +71,21 @@ def run(chk, program, tier):
                 attrs = F.runtime_attrs(program, sf, cf, consts, excl, incl, dump)
                 model, msg = F.make_model(attrs, consts, P, ID, extra_self={'dump_TextIOWrapper': _F() if has_file else None})
                 try:
-                    res = F.outcome(program, stages, model)
-                    written = False
-                    if res[0] == 'returned':
-                        written = teval.guard_true(we, model)
+                    try:
+                        res = F.outcome(program, stages, model)
+                        written = False
+                        if res[0] == 'returned':
+                            written = teval.guard_true(we, model)
+                    except teval.EvalUnknown as u0:
+                        from .. import absint as A_
+                        try:
+                            det_ = F.outcome_interp(program, attrs, consts, P, ID, extra_self={'dump_TextIOWrapper': _F() if has_file else None})
+                        except (A_.Unknown, A_.RaiseSignal, KeyError, AttributeError, TypeError) as u2:
+                            raise teval.EvalUnknown(f"{u0} / decode path not interpretable: {u2}"[:300])
+                        res = (det_['status'], det_['stage'], 0, det_['stored'])
+                        written = det_['writes'] == 1 and res[0] == 'returned'
+                        if det_['writes'] > 1 or (det_['writes'] and res[0] != 'returned'):
+                            written = not (has_file and F.spec_permitted(P, ID, excl, incl))      # forces a disagreement: a line for a withheld message, or two lines
                 except teval.EvalUnknown as u:
                     chk.unknown('DUMP-GUARD', f"dump={dump}", f"guard not evaluable: {u}", DEC, we[-1]); return
                 nm += 1
